@@ -63,6 +63,9 @@ CLAIMED = {
  "C13": dict(cat="exploration", technique="SluApi trace validation of expert-driver histories; berr/ferr clauses via harness oracle",
              text="For every refined solve over all trans/storage/equilibration combinations the returned berr must equal the true componentwise backward error of the returned X for the equilibrated system in the requested transpose sense (to 20(n+1)eps), and 20*ferr must dominate the actual relative error; TLC asserts both on the records of TLC-enumerated histories.",
              note="Only the protocol part is decided by TLC; the two numerical inequalities are oracle-observed (long double).", ref="3.7, 5 C13"),
+ "C20": dict(cat="exploration", technique="TLA+ specification as oracle (SluFiles!ReaderOK evaluated by TLC) on files rendered from abstract matrices and read by the real readers",
+             text="Abstract matrices are rendered as Harwell-Boeing, Rutherford-Boeing and column-list text with varying integer/real edit descriptors (E, D, F), with and without the right-hand-side card, and read by the real ?readhb/?readrb/?readmt in four precisions; TLC checks that the returned column-compressed arrays represent exactly the entries and values of the abstract matrix.",
+             note="The file writer is part of the trusted harness; widths <= 80, explicit-width descriptors only; F12 (no symmetric expansion, no triplet reader) is a recorded finding.", ref="3.7, 5 C20"),
 }
 NA_REASON = "check not built yet in this session (planned, see DESIGN.md section 5); not claimed"
 
